@@ -50,6 +50,7 @@ fn main() {
     }
     let code = match id {
         "C01" => props::c01::run(tier),
+        "C02" => props::c01::run_c02(tier),
         _ => {
             eprintln!("unknown property {}", id);
             2
